@@ -23,7 +23,16 @@ def design_level(out, tier):
     res = run_tlc('MCThrottle.tla', 'MCThrottle_nocap.cfg', workers=4, timeout=300)
     if res.violation not in ('TallyBounded', 'RateBound'):
         raise MachineryError('MCThrottle_nocap was expected to violate TallyBounded or RateBound, got %s %s' % (res.violation, res.error))
-    out.notes['design_deviations_rejected'] = ['nocap (refilled tally not capped at count) violates %s' % res.violation]
+    rej = ['nocap (refilled tally not capped at count) violates %s' % res.violation]
+    res = run_tlc('MCAverager.tla', 'MCAverager_ok.cfg', workers=8, timeout=600)
+    if res.error or res.violation:
+        raise MachineryError('design model MCAverager_ok: %s %s\n%s' % (res.error, res.violation, res.out[-1500:]))
+    out.add_tlc('MCAverager_ok.cfg', res, '3 clients, values {1,2}, <= 5 operations add/get/pop; EveryAddCounted, AllAddsFinish')
+    res = run_tlc('MCAverager.tla', 'MCAverager_dev.cfg', workers=4, timeout=300)
+    if res.violation != 'EveryAddCounted':
+        raise MachineryError('MCAverager_dev was expected to violate EveryAddCounted, got %s %s' % (res.violation, res.error))
+    rej.append('Averager.add without its transaction block violates EveryAddCounted (lost update)')
+    out.notes['design_deviations_rejected'] = rej
 
 
 def _avg_dfs(cfg, prog, bound, max_runs, seed):
@@ -99,7 +108,7 @@ def run(prop, tier, seed):
                                      'starts': [t for t in traces if t['kind'] == 'thr'][0]['starts']}})
     out.notes.update({'averager_schedules': sum(1 for t in traces if t['kind'] == 'avg'), 'throttle_runs': sum(1 for t in traces if t['kind'] == 'thr'),
                       'throttle_starts_checked': sum(len(t['starts']) for t in traces if t['kind'] == 'thr')})
-    out.level = 'exploration'
+    out.level = 'model_checking'
     return out.finish({'evaluations': len(traces), 'distinct_nontrivial': len({str(t['program']) + str(t['cfg']) for t in traces}),
                        'rule': 'Averager: scheduler-enumerated (<= 2 preemptions) and random schedules of 2-3 adders/poppers/readers, the pair published by every COMMIT '
                                'validated by TLC; throttle: rates (1/1, 2/1, 3/2, 1/2) x 1-3 callers x arrival patterns (burst, idle then burst, steady, random) under a virtual clock, '
